@@ -144,6 +144,14 @@ C11 = [
     _tp("hwloc_compare_types", "hp_hwloc_compare_types", 2, cost=5, driver="topology.drv.c",
         note="antisymmetry, Machine highest, PU deepest, kind predicates vs documented kinds, transitivity, order tables are inverse permutations: all type triples (loop-free, complete)"),
 ]
+C11 += [
+    _tp("names_roundtrip", "hp_names_roundtrip", 24, cost=20, defs={"STRTOL_EXACT": None},
+        note="print/parse round trip of the OS-device names table (finite, concrete texts: complete): for each of the 7 type bits the short and the long name, alone and as the tail \"<name>]\" of a printed OS[...] text, parse back to exactly that bit"),
+] + [
+    _tp("type_string_roundtrip.t%d" % t, "hp_type_string_roundtrip", 24, cost=5, defs={"STRTOL_EXACT": None, "TS_TYPE": t},
+        note="hwloc_type_sscanf(hwloc_obj_type_string(%d)) returns 0 and the same type (concrete text: complete for this type)" % t)
+    for t in range(0, 20)
+]
 PROPS["C11"] = C11
 
 
@@ -225,6 +233,7 @@ C13X += [
     _ds("hwloc_distances_add", 2, 6, nd=2, cost=20, note="add_create + add_values + add_commit on a list of 0..2 structures: invalid kind word / flags / NULL object / unknown commit flags => refused, list unchanged; success => appended at the tail with a fresh id, the caller's kind (+HETEROGENEOUS_TYPES iff types differ), private copies of name, objects and values, os_index or gp_index identities; 2 objects; grouping off"),
     _ds("hwloc_distances_add", 3, 10, nd=2, cost=40, note="same with 3 objects"),
 ]
+DIST_DUP = _ds("hwloc_internal_distances_dup", 2, 6, nd=3, cost=20, note="hwloc_internal_distances_dup on a list of 0..3 structures (2 objects each): the duplicate list has the same structures in order with consistent prev/next/first/last links, equal scalars, indexes, types and values, an invalidated object cache, private copies of every array and name (no storage shared with the source); the source list is untouched; allocation failure => -1")
 PROPS["C13"] = [j for j in GUARD_EPERM if j.name == "hwloc_distances_add_create"] + C13X
 DIFF_ROLLBACK = Job(name="hwloc_topology_diff_apply__rollback", driver="guard.diff.drv.c", entry="h_hwloc_topology_diff_apply__rollback",
     enforce="hwloc_topology_diff_apply/hwloc_topology_diff_apply__rollback", replace=["hwloc_apply_diff_one/verif_apply_one"], unwind=5, unwindset="__CPROVER_contracts_write_set_check_assigns_clause_inclusion.0:16", objbits=10, cost=20,
@@ -320,4 +329,72 @@ C06 = [
         note="hwloc__nolibxml_import_%s on an arbitrary 7-byte buffer + NUL (all byte values), cursors anywhere inside: memory safe, returns, cursors stay inside; strspn model; loops unwound 40 times" % fn)
     for fn in ("next_attr", "find_child", "close_tag", "get_content")
 ]
+C06 += [
+    Job(name="nolibxml_look_init.%s" % tag, driver="nolibxml.drv.c", entry="hp_nolibxml_look_init", mode="plain", unwind=64, min_post=0, cost=30, family="nolibxml",
+        label="bounded", defines={"BL": 4, "XHEAD": head}, timeout=900, tdefs={"BL": 8}, ttimeout=3600,
+        note="hwloc_nolibxml_look_init on the document head %s followed by 4 arbitrary bytes + NUL (exact-size allocation): returns 0/-1, memory safe, on success the tag cursor points inside the buffer; sscanf model for the one format used" % head)
+    for tag, head in (("version", '"<topology version=\\"2.0\\""'), ("v1", '"<topology"'), ("root", '"<roo"'), ("xmldecl", '"<?xml version=\\"1.0\\"?>\\n<topology version=\\"2.0\\""'), ("empty", '""'))
+]
 PROPS["C06"] = C06 + [j for j in C05 if j.name.startswith("base64_decode_safe")]   # the decoder is also a leaf of the XML import (userdata)
+
+
+# ------------------------------------------------------------------ C07 topology-synthetic.c
+def _sy(name, entry=None, unwind=6, cost=30, label="bounded", defs=None, **kw):
+    return Job(name=name, driver="synthetic.drv.c", entry=entry or ("hp_" + name), mode="plain", unwind=unwind, min_post=0, cost=cost,
+               family="synthetic", label=label, defines=dict(defs or {}), drop_checks=("--pointer-overflow-check",), **kw)
+
+_IDXC = ["hwloc__export_synthetic_indexes:verif_export_indexes_contract"]
+_ATTRC = ["hwloc__export_synthetic_obj_attr:verif_export_obj_attr_contract"]
+_OBJC = ["hwloc__export_synthetic_obj:verif_export_obj_contract"]
+_MCC = ["hwloc__export_synthetic_memory_children:verif_export_memory_children_contract"]
+C07 = [
+    _sy("synth_update_status", label="proof", unwind=2, cost=2, note="hwloc__export_synthetic_update_status: the cursor invariant (0 <= tmplen <= buflen, tmp == buffer+(buflen-tmplen), buflen>0 => tmplen>=1) is preserved, ret grows by exactly res, failed pieces move nothing, nothing is written; all values, buflen <= 64 (loop-free, complete)"),
+    _sy("synth_add_char", label="proof", unwind=2, cost=2, note="hwloc__export_synthetic_add_char: cursor invariant preserved, ret grows by one, the character and a NUL are stored iff two bytes are left, nothing outside [tmp,tmp+tmplen) changes; all values, buflen <= 64 (loop-free, complete)"),
+] + [
+    _sy("synth_export_indexes.n%d" % n, entry="hp_synth_export_indexes", unwind=n * n + 3, cost=20 * n, defs={"NB": n, "BUFMAX": 16},
+        note="hwloc__export_synthetic_indexes on a level of exactly %d objects with arbitrary os_index values: snprintf-style contract (nothing outside [buffer,buffer+buflen), NUL-terminated, returns the sum of the piece lengths or -1), loops array in bounds, buffers 0..16" % n)
+    for n in (1, 2, 3)
+] + [
+    _sy("synth_export_indexes.n4", entry="hp_synth_export_indexes", unwind=19, cost=280, defs={"NB": 4, "BUFMAX": 16}, tiers=("thorough",), timeout=1800,
+        note="hwloc__export_synthetic_indexes on a level of exactly 4 objects (thorough tier)"),
+    _sy("synth_export_obj_attr", unwind=5, cost=40, defs={"NB": 2, "BUFMAX": 16}, replace_calls=_IDXC,
+        note="hwloc__export_synthetic_obj_attr for an object of any type and attribute content, <= 2 memory-side caches above it, a level of 2 cousins, any flag word: snprintf-style contract; the index list is exported by the contract of hwloc__export_synthetic_indexes"),
+    _sy("synth_export_obj", unwind=5, cost=60, defs={"NB": 2, "BUFMAX": 16}, replace_calls=_ATTRC,
+        note="hwloc__export_synthetic_obj for any type / attributes / arity / flag word: snprintf-style contract (type name, arity, attributes)"),
+] + [
+    _sy("synth_export_memory_children.nm%d_mc%d" % (nm, mcm), entry="hp_synth_export_memory_children", unwind=5, cost=60, defs={"NB": 2, "BUFMAX": 16, "SHAPE_NM": nm, "SHAPE_MC": mcm}, replace_calls=_OBJC,
+        note="hwloc__export_synthetic_memory_children: %d memory children (memory-side-cache mask %d), any flag word incl. V1 (several children => EINVAL), any needprefix: snprintf-style contract with the exact number of separators" % (nm, mcm))
+    for nm, mcm in ((0, 0), (1, 0), (1, 1), (2, 0), (2, 2))
+] + [
+    _sy("synth_export.nm%d_mc%d_mid%d" % (nm, mcm, mid), entry="hp_synth_export", unwind=5, cost=90, defs={"NB": 2, "BUFMAX": 16, "SHAPE_NM": nm, "SHAPE_MC": mcm, "SHAPE_MID": mid}, replace_calls=_ATTRC + _OBJC + _MCC,
+        remove_bodies=["hwloc_check_memory_symmetric"],
+        note="hwloc_topology_export_synthetic on Machine -> %s2 PUs with %d memory children below the root: not loaded / unknown flags / asymmetric root => EINVAL and nothing written; otherwise the snprintf-style contract for every flag word without V1, every attribute content, buffers 0..16; the memory-symmetry test is cut out (any answer)" % ("one level -> " if mid else "", nm))
+    for nm, mcm, mid in ((0, 0, 0), (2, 2, 0))
+] + [
+    _sy("synth_parse_memory_attr", unwind=8, cost=5, defs={"SLEN": 5}, tdefs={"SLEN": 8}, tunwind=11, note="hwloc_synthetic_parse_memory_attr at any offset of an arbitrary NUL-terminated string of <= 5 bytes: the end pointer stays inside the string; strtoull contract stub"),
+    _sy("synth_parse_attrs", unwind=8, cost=30, defs={"SLEN": 6}, tdefs={"SLEN": 9}, tunwind=11, note="hwloc_synthetic_parse_attrs on an arbitrary NUL-terminated string of <= 6 bytes: 0 or -1/EINVAL, memory safe, on success the next position is just after the closing bracket and the indexes text lies inside the list"),
+]
+_FS = ["--max-field-sensitivity-array-size", "2048"]     # constant propagation through the level table and the description text
+def _syl(tag, n, tok, last, prefix="", cost=8):
+    d = {"SYNTH_DIGITS": None, "HWLOC_VERIF_SYNTHETIC_MAX_DEPTH": 8, "SYN_N": n, "SYN_TOK": '"%s"' % tok, "SYN_LAST": '"%s"' % last, "SYN_PREFIX": '"%s"' % prefix}
+    desc = prefix + tok * n + last
+    return _sy("synth_init.%s%d" % (tag, n), entry="hp_synth_init_levels", unwind=24, cost=cost, defs=d, extra_cbmc=_FS, remove_bodies=["hwloc_synthetic_process_indexes"],
+               note="hwloc_backend_synthetic_init(\"%s\") with the level table scaled down to 8 entries (HWLOC_SYNTHETIC_MAX_DEPTH is a symbolic constant of the code; hook HWLOC_VERIF_SYNTHETIC_MAX_DEPTH): memory safe -- every access to the level table in bounds --, returns 0/-1, an accepted description leaves a table hwloc__look_synthetic can build (Machine first, PU last, valid intermediate types, cache depths 1..5); the description has no indexes= attribute, hwloc_synthetic_process_indexes (a no-op then) is cut out" % desc)
+C07 += [_syl("typed", n, "g:1 ", "u:1") for n in range(0, 7)] \
+     + [_syl("untyped", n, "1 ", "1") for n in range(0, 7)] \
+     + [_syl("attached", n, "2 ", "2", prefix="[n] ") for n in range(0, 7)] \
+     + [_syl("mixed", n, "l:2 ", "u:2", prefix="p:1 [n] ") for n in (1, 2)]
+C07 += [
+] + [
+    _sy("synth_process_indexes_loops.l%d" % l, entry="hp_synth_process_indexes_loops", unwind=14, cost=40, defs={"SYNTH_DIGITS": None, "SYNTH_ANYVALUE": None, "IDX_LOOPS": l, "IDX_TOTAL": 4}, extra_cbmc=_FS, timeout=900,
+        note="hwloc_synthetic_process_indexes on the interleaving text of %d loops 'x*y:...' where every number stands for ANY value (number parser: exact end position, arbitrary value), any total <= 4: memory safe, no failed assertion, no division by zero, accepted interleavings yield in-range indexes" % l)
+    for l in (1, 2, 3)
+] + [
+    _sy("synth_process_indexes", unwind=13, cost=300, tiers=("thorough",), defs={"SLEN": 5, "IDX_TOTAL": 4}, timeout=900,
+        note="hwloc_synthetic_process_indexes on an arbitrary indexes text of <= 5 bytes for a level of <= 4 objects below <= 3 levels of arbitrary widths: memory safe, no failed assertion, an accepted list has `total` entries; strtoul/strtol contract stubs (any value, end anywhere)"),
+]
+PROPS["C07"] = C07
+
+
+# ------------------------------------------------------------------ C12 dup: leaves only
+PROPS["C12"] = [j for j in C03 if j.name in ("hwloc_bitmap_dup", "hwloc_bitmap_copy")] + [DIST_DUP]
